@@ -502,6 +502,23 @@ func (gb *gcpBalancer) bindSubConn(bindKey string, sc balancer.SubConn) {
 	scRef.affinityIncr()
 }
 
+// bindSubConnRef binds the given affinity key to the channel of scRef. The channel's SubConn is
+// read under the balancer lock: a refresh may swap it at any moment before, and a SubConn read
+// earlier would no longer be found in the pool although the channel still is.
+func (gb *gcpBalancer) bindSubConnRef(bindKey string, scRef *subConnRef) {
+	gb.mu.Lock()
+	defer gb.mu.Unlock()
+	sc := scRef.getSubConn()
+	if gb.scRefs[sc] != scRef {
+		// The channel has left the pool. Nothing to bind to.
+		return
+	}
+	if _, ok := gb.affinityMap[bindKey]; !ok {
+		gb.affinityMap[bindKey] = sc
+	}
+	scRef.affinityIncr()
+}
+
 // unbindSubConn removes the existing binding associated with the key.
 func (gb *gcpBalancer) unbindSubConn(boundKey string) {
 	gb.mu.Lock()
